@@ -43,8 +43,8 @@ class Result:
 
 
 def load_findings():
-    if not os.path.exists(FINDINGS_FILE):
-        return []
+    if not os.path.exists(FINDINGS_FILE) or os.environ.get("VERIF_IGNORE_FINDINGS"):
+        return []   # VERIF_IGNORE_FINDINGS=1 (debugging aid): report the known findings as violations, e.g. to obtain their replay files
     with open(FINDINGS_FILE) as f:
         return json.load(f).get("findings", [])
 
